@@ -738,3 +738,32 @@ impl Drop for Discv5 {
         self.shutdown();
     }
 }
+
+#[cfg(feature = "verif-hooks")]
+impl Discv5 {
+    /// Verification hook: starts the service with a scripted handler. Returns the stream of
+    /// messages the service sends to the handler and the channel to feed handler events.
+    #[allow(clippy::type_complexity)]
+    pub fn start_scripted(
+        &mut self,
+    ) -> Result<
+        (
+            mpsc::UnboundedReceiver<crate::handler::HandlerIn>,
+            mpsc::Sender<crate::handler::HandlerOut>,
+        ),
+        Error,
+    > {
+        if self.service_channel.is_some() {
+            return Err(Error::ServiceAlreadyStarted);
+        }
+        let (service_exit, service_channel, handler_in, handler_out) = Service::spawn_scripted(
+            self.local_enr.clone(),
+            self.enr_key.clone(),
+            self.kbuckets.clone(),
+            self.config.clone(),
+        );
+        self.service_exit = Some(service_exit);
+        self.service_channel = Some(service_channel);
+        Ok((handler_in, handler_out))
+    }
+}
